@@ -12,6 +12,7 @@ From AS Require Import Base Effects.
 From AS.Spec Require Import Terminal.
 From AS.Model Require Import Sgr Table Render.
 From AS.Proofs Require Import TableProofs SgrAlgebra RenderProofs.
+From AS.Proofs Require ParseProofs RoundTripEsc DisplayEsc.
 
 (* str() / format(s, '') are to_str with the default flags *)
 Theorem C01_str : forall s, render s = to_str s true false true.
@@ -93,5 +94,23 @@ Print Assumptions C01_reset_start.
 
 (* non-vacuity: the examples of Proofs/RenderProofs.v satisfy every hypothesis and their computed
    renderings display as stated (ex_s_*: unoptimised; ex_o_*: the optimiser really shortens) *)
+(* TEXTS WITH EMBEDDED CONTROL SEQUENCES (U+001B in base_str; outside the theorems above, known finding K1).  A real terminal
+   swallows an embedded non-SGR sequence, so the byte-level statement has no meaning there.  On the TOKEN level the clause
+   holds whenever the text is cuts_closed (complete non-SGR sequences, no change point strictly inside one): reading the
+   rendering with the library's control-sequence grammar (C19) and counting the characters of rejected sequences as
+   characters, every character of base_str is displayed, in order, with the effective style of the settings it reports,
+   for all 8 flag sets; with reset_start from any starting state; with reset_end ending in the default state. *)
+Theorem C01_display_tokens_esc : forall s opt rs re t0,
+  ssorted (tbl s) -> adds_wf (tbl s) -> RoundTripEsc.cuts_closed s = true -> (rs = false -> t0 = tdefault) ->
+  exists disp tfin,
+    ParseProofs.tk_run t0 (Tokenizer.tokenize false (Some [CH_m]) (to_str s opt rs re)) = (disp, tfin)
+    /\ map fst disp = base s
+    /\ (forall i, (i < length (base s))%nat -> exists st, nth_error (map snd disp) i = Some st /\
+          teq st (style_of (map stxt (active_at (tbl s) i))))
+    /\ (re = true -> teq tfin tdefault).
+Proof. exact DisplayEsc.display_tokens_esc. Qed.
+Print Assumptions C01_display_tokens_esc.
+Example C01_display_tokens_esc_example := DisplayEsc.display_tokens_esc_example.
+
 Example C01_example_hyps := ex_s_hyps.
 Example C01_example_opt := ex_o_rendered.
